@@ -178,5 +178,37 @@ spec fn all_joined(hs: Seq<Handle>, k: int) -> bool { forall|j: int| 0 <= j < k 
                                     invariant strs(paths_w@) == strs(work_result.blob.paths@),
                                         out.log == log_i + banners(WorkOption::CommandExecuted(output), strs(paths_w@), it3.index@),
 //@ end
+
+// ================= the tail of clean(): joining the per-rule threads (no channels: a clean thread waits for nobody) =================
+struct CleanHandle { r: Ghost<Option<Result<(), WorkError>>> }
+impl CleanHandle {
+    spec fn outcome(&self) -> Option<Result<(), WorkError>> { self.r@ }
+    #[verifier::external_body]
+    fn join(self) -> (r: Result<Result<(), WorkError>, JoinErr>)
+        ensures r matches Ok(x) ==> self.outcome() == Some(x), r is Err ==> self.outcome() is None
+    { unimplemented!() }
+}
+spec fn clean_errors(hs: Seq<CleanHandle>, k: int) -> Seq<WorkError>
+    decreases k
+{
+    if k <= 0 { Seq::empty() } else { match hs[k - 1].outcome() { Some(Err(e)) => clean_errors(hs, k - 1).push(e), _ => clean_errors(hs, k - 1) } }
+}
+spec fn all_cleaned(hs: Seq<CleanHandle>, k: int) -> bool { forall|j: int| 0 <= j < k ==> (#[trigger] hs[j]).outcome() is Some }
+
+//@ extract build.rs fn clean tail /let mut work_errors : Vec<WorkError> = Vec::new\(\);/
+//@ props C04 C05 C10
+//@ sig fn clean_join_all(handles: Vec<CleanHandle>) -> (res: Result<(), BuildError>)
+//@ spec
+    ensures
+        // every thread is joined, in order; success exactly when every rule's clean succeeded; otherwise exactly one error per
+        // failed rule, in rule order; a panicked thread is reported as such.  (No loop but the join loop: clean cannot hang.)      //# O-F-clean-join [C04,C05,C10]
+        res is Ok <==> (all_cleaned(handles@, handles@.len() as int) && clean_errors(handles@, handles@.len() as int).len() == 0),
+        res matches Err(BuildError::WorkErrors(v)) ==> all_cleaned(handles@, handles@.len() as int) && v@ == clean_errors(handles@, handles@.len() as int),
+        res matches Err(e) ==> e is WorkErrors || e is Weird,
+        res matches Err(BuildError::Weird) ==> !all_cleaned(handles@, handles@.len() as int),
+//@ loop 1 binder it
+//@ loop 1 invariant
+        invariant all_cleaned(handles@, it.index@), work_errors@ == clean_errors(handles@, it.index@),
+//@ end
 } // verus!
 fn main() {}
